@@ -162,6 +162,19 @@ func c15Case(c *fw.Case, typ string, allBits bool) {
 		c.Failf("payload-changed", map[string]interface{}{"jws": compact, "payload_b64": oracle.B64(payload), "got_b64": oracle.B64(parsed.Payload)}, "VerifyJWS returned a different payload")
 	}
 	c.Sample(map[string]interface{}{"key_type": typ, "jws": compact, "jwk": k.JWK()})
+	// what VerifyJWS returns belongs to the caller: editing it does not change the verdict on the same JWS afterwards
+	if parsed.ProtectedHeaders != nil {
+		parsed.ProtectedHeaders["alg"] = "none"
+		parsed.ProtectedHeaders["injected"] = true
+		if len(parsed.Payload) > 0 {
+			parsed.Payload[0] ^= 0xff
+		}
+		c.Count("result-edited-then-verified-again", 1)
+		c.Evals(1)
+		if again, err := jwsutil.VerifyJWS(compact, jwk); err != nil || !bytes.Equal(again.Payload, payload) {
+			c.Failf("valid-jws-refused-after-result-was-edited", map[string]interface{}{"jws": compact, "jwk": k.JWK(), "err": fmt.Sprint(err)}, "after the caller edited the result of VerifyJWS, the same valid JWS no longer verifies (or returns another payload): %v", err)
+		}
+	}
 	// the same signer object signs several payloads: every one of them must verify (no state carried between calls)
 	reused := signerFor(k, kid)
 	for i := 0; i < 3; i++ {
@@ -556,7 +569,11 @@ func c15Options(c *fw.Case) {
 			if strings.HasSuffix(b64, "+crit-other") {
 				hdr["crit"] = []interface{}{"exp"}
 			}
-			obj, err := jwsutil.NewJWS(hdr, nil, payload, signer)
+			var unprotected jws.Headers
+			if r.Chance(1, 3) {
+				unprotected = jws.Headers{"x-note": "not signed", "kid2": "k"}
+			}
+			obj, err := jwsutil.NewJWS(hdr, unprotected, payload, signer)
 			if err != nil {
 				c.Failf("new-jws-error", map[string]interface{}{"key_type": typ, "b64": b64, "err": err.Error()}, "NewJWS failed: %v", err)
 				continue
